@@ -397,22 +397,33 @@ still to be applied (`-1` = last) -/
 def rankIndex (k : Int) (count : Nat) : Int :=
   if k < 0 ∨ k > count then (count : Int) - 1 else k - 1
 
+/-- aggregate of a non-arrayed element -/
+def aggScalar (g : Agg) (e : Elem) : Py :=
+  match g with
+  | .sum => .paren (ref e.name [])
+  | .prod => .paren (ref e.name [])
+  | .mean => .num "0.0"
+  | .median => .num "0.0"
+  | .std => .num "0.0"
+  | .size => .num "0.0"
+  | .rank _ _ => .num "0.0"
+
+def Elem.count (e : Elem) : Nat := e.keys.length * (if e.inner.isEmpty then 1 else e.inner.length)
+
+def sortedCall (e : Elem) : Py := .call (.name "sorted") [.list e.rowMajor, .kw "reverse" (.name "True")]
+
+/-- aggregate of an arrayed element -/
+def aggArr (g : Agg) (e : Elem) : Option Py :=
+  match g with
+  | .sum => (chain .add e.rowMajor).map .paren
+  | .prod => (chain .mul e.rowMajor).map .paren
+  | .mean => some (npCall "mean" e.display)
+  | .median => some (npCall "median" e.display)
+  | .std => some (npCall "std" e.display)
+  | .size => some (natPy e.keys.length)
+  | .rank neg k => some (.index (sortedCall e) (rankIndexPy neg k e.count))
+
 def aggTerm (g : Agg) (e : Elem) : Option Py :=
-  if !e.arrayed then
-    match g with
-    | .sum | .prod => some (.paren (ref e.name []))
-    | _ => some (.num "0.0")
-  else
-    match g with
-    | .sum => (chain .add e.rowMajor).map .paren
-    | .prod => (chain .mul e.rowMajor).map .paren
-    | .mean => some (npCall "mean" e.display)
-    | .median => some (npCall "median" e.display)
-    | .std => some (npCall "std" e.display)
-    | .size => some (natPy e.keys.length)
-    | .rank neg k =>
-      let count := e.keys.length * (if e.inner.isEmpty then 1 else e.inner.length)
-      some (.index (.call (.name "sorted") [.list e.rowMajor, .kw "reverse" (.name "True")])
-                   (rankIndexPy neg k count))
+  if e.arrayed then aggArr g e else some (aggScalar g e)
 
 end Bptk.C10
